@@ -15,7 +15,7 @@ func init() {
 		Technique:   "guarded-sink and ordering rules (SSA) on the registry view matching, on Transaction.Set/Unset/Get/Commit and on registrystate.SetViaView; constant sets of the access predicates; loop-carried aliasing rule on rule parsing",
 		Explanation: "Structural necessary conditions for 'registry views enforce their access rules and transactions commit atomically' (path matching and placeholder expansion are not decided): (R1) a rule contributes to a write request only across rule.match ∧ rule.isWriteable(), to a read request only across rule.match ∧ rule.isReadable(); (R2) isReadable is access in {read-write, read} and isWriteable is access in {read-write, write}; (R3) Transaction.Set/Unset only append one delta (in call order) and touch nothing else; Get applies exactly the not-yet-applied deltas to a copy; Commit re-reads the databag, works on a copy, writes only after applyDeltas and Schema.Validate succeeded, writes the bag it validated, and replaces the transaction's own view only after the write succeeded; applyDeltas applies the deltas in order without early success; (R4) registrystate.SetViaView commits only after every request was applied without error; SetViaViewInTx stops at the first failing request; (R5) writeDatabag is invoked only by Commit; nested rule parsing never builds a child's request/storage with append onto the parent's slice (sibling rules would share a backing array).",
 		NotDecided:  "path and placeholder matching, value pruning and merging of nested results, schema validation itself; cross-registry isolation in registrystate.",
-		Run:         func(c *Ctx) { runC30(c); runC30x(c) },
+		Run:         func(c *Ctx) { runC30(c); runC30x(c); runC30y(c) },
 	})
 }
 
